@@ -5,7 +5,7 @@ from .. import gens
 from ..oracles import nat as onat
 from ..oracles.core import ASCII_DIGITS, ASCII_UPPER, norm
 from ..runner import HarnessError, Rec
-from ._shared import gen, oracle
+from ._shared import gen, oracle, sibling_ibans
 
 
 def lib_verdicts(rec, text, inp):
@@ -83,6 +83,43 @@ def check_listed(rec: Rec, cc: str, bban: str, origin: str):
     return want
 
 
+def check_bban_objects(rec: Rec, cc, bban, want):
+    """The BBAN-level check reports the same on BBAN objects however they came about (direct construction, from the
+    components, random pins) - 'success as true, failure by raising'."""
+    from ..lib import BBAN, SchwiftyException, frame_of
+    from ..oracles.core import COMPONENTS
+    if want is None:
+        return
+    o = oracle()
+    comps = {k: o.component(cc, bban, k) for k in COMPONENTS}
+    comps = {k: v for k, v in comps.items() if v}
+    makers = [("direct", lambda: BBAN(cc, bban)), ("from_components", lambda: BBAN.from_components(cc, **comps))]
+    for how, make in makers:
+        inp = {"cc": cc, "bban": bban, "origin": "bban-object:" + how}
+        try:
+            obj = make()
+        except SchwiftyException:
+            continue      # e.g. Norway's uncomputable digit
+        except Exception as e:  # noqa: BLE001
+            rec.fail(f"crash|bban_object|{how}|{type(e).__name__}|{frame_of(e)}", "bban_level", inp, "object", f"{type(e).__name__}: {e}")
+            continue
+        if str(obj) != bban:
+            continue      # from_components recomputed different digits: the object is another BBAN (C09 judges that)
+        try:
+            got = ("ok", obj.validate_national_checksum())
+        except SchwiftyException as e:
+            got = ("err", type(e).__name__)
+        except Exception as e:  # noqa: BLE001
+            rec.fail(f"crash|bban_object|{how}|{type(e).__name__}|{frame_of(e)}", "bban_level", inp, "True or library error",
+                     f"{type(e).__name__}: {e}")
+            continue
+        if want is True and not (got[0] == "ok" and got[1] is True):
+            rec.fail(f"bban_object_success_not_true|{how}|{cc}", "bban_level", inp, True, got)
+        if want is False and got[0] != "err":
+            rec.fail(f"bban_object_failure_not_raised|{how}|{cc}", "bban_level", inp, "raises", got)
+        rec.classes[f"bban-object-{how}"] += 1
+
+
 def check_unlisted(rec: Rec, text: str, origin: str):
     """flag on == flag off for countries without a national algorithm; monotonic for every text."""
     inp = {"text": text, "origin": origin}
@@ -104,10 +141,25 @@ def check_unlisted(rec: Rec, text: str, origin: str):
 
 def replay(rec, case):
     i = case["input"]
+    origin = i.get("origin", "replay")
     if "bban" in i:
-        check_listed(rec, i["cc"], i["bban"], i.get("origin", "replay"))
+        if origin.startswith("bban-object"):
+            check_bban_objects(rec, i["cc"], i["bban"], onat.ref(i["cc"], i["bban"], oracle().positions(i["cc"])))
+            return
+        # same history as in the exploration: the country itself, its siblings, the country again
+        check_listed(rec, i["cc"], i["bban"], origin)
+        for y, t in sibling_ibans(i["cc"], i["bban"]):
+            if y in onat.LISTED:
+                check_listed(rec, y, i["bban"], "sibling")
+            elif y != "DE":
+                check_unlisted(rec, t, "sibling")
+        check_listed(rec, i["cc"], i["bban"], origin)
     else:
-        check_unlisted(rec, i["text"], i.get("origin", "replay"))
+        s = norm(i["text"])
+        for y, t in sibling_ibans(s[:2], s[4:]) if s[:2] in oracle().table else []:
+            if y in onat.LISTED:
+                check_listed(rec, y, s[4:], "sibling")
+        check_unlisted(rec, i["text"], origin)
 
 
 def shard_listed(arg):
@@ -146,6 +198,20 @@ def shard_listed(arg):
         w = check_listed(rec, cc, b, origin)
         rec.case(f"{cc}-{'accept' if w else ('reject' if w is False else 'undecided')}", (cc, b) if w is not None else None,
                  {"cc": cc, "bban": b, "reference": w} if k < 2 else None)
+        if k % 5 == 0:
+            # same BBAN text under the other countries it fits, then this country again: each judged by its own rules
+            sibs = sibling_ibans(cc, b)
+            for y, t in sibs:
+                if y in onat.LISTED:
+                    check_listed(rec, y, b, "sibling")
+                elif y != "DE":
+                    check_unlisted(rec, t, "sibling")
+                rec.case("sibling-text", (y, b), {"text_of": cc, "judged_as": y, "bban": b} if k == 0 else None)
+            if sibs:
+                check_listed(rec, cc, b, "after-sibling")
+        # BBAN objects of other provenance than IBAN(...).bban: built directly and from components
+        if k % 7 == 0:
+            check_bban_objects(rec, cc, b, w)
         acc += w is True
         rej += w is False
         # exhaustive in the national field for some bases
@@ -170,6 +236,29 @@ def shard_listed(arg):
                 rec.case(f"{cc}-sweep", (cc, b2) if w2 is not None else None)
             rec.classes["sweeps"] += 1
             rec.exhaustive.append("every value of the national check field for selected bases")
+    # edge-directed bases: BBANs whose *valid* national field value is extreme (00, 01, 97, 98, 0, 9, A, Z ...), i.e. where the
+    # algorithm sits on a remainder special case; the whole field is swept for each such base
+    fld = onat.check_field(pos)
+    if fld:
+        a, e = fld
+        width = e - a
+        vals = [f"{i:0{width}d}" for i in range(10 ** width)] if cl[a] == "n" else list(ASCII_UPPER)
+        edge = set(vals[:3] + vals[-3:] + ([v for v in vals if v in ("10", "11", "96", "97", "98")] if width == 2 else []))
+        seen_edge = set()
+        for _ in range(400 if tier == "quick" else 6000):
+            b = g.bban(cc, rng, "digits" if rng.random() < 0.7 else "random")
+            valid = [v for v in vals if onat.ref(cc, b[:a] + v + b[e:], pos) is True]
+            hit = [v for v in valid if v in edge and v not in seen_edge]
+            if not hit:
+                continue
+            seen_edge.update(hit)
+            for v in vals:
+                b2 = b[:a] + v + b[e:]
+                w2 = check_listed(rec, cc, b2, "edge-sweep")
+                rec.case(f"{cc}-edge-sweep", (cc, b2) if w2 is not None else None,
+                         {"cc": cc, "bban": b2, "valid_field_value": hit[0]} if v == hit[0] else None)
+            rec.classes["edge-sweeps"] += 1
+        rec.notes.append(f"{cc}: edge field values reached: {sorted(seen_edge)}")
     if acc == 0 or rej == 0:
         raise HarnessError(f"{cc}: accept side {acc} / reject side {rej} is empty")
     return rec
@@ -214,6 +303,6 @@ def run(ctx):
     need = []
     for cc in onat.LISTED:
         need += [f"{cc}-accept", f"{cc}-reject"]
-    ctx.require_classes("unlisted-valid", "mutant", "sweeps", *need)
+    ctx.require_classes("unlisted-valid", "mutant", "sweeps", "edge-sweeps", "sibling-text", "bban-object-direct", "bban-object-from_components", *need)
     ctx.extra["per_country"] = {cc: {"accept": ctx.rec.classes.get(f"{cc}-accept", 0),
                                      "reject": ctx.rec.classes.get(f"{cc}-reject", 0)} for cc in onat.LISTED}
